@@ -12,6 +12,8 @@ ORACLES = tuple("interop,internal".split(","))
 
 def run(ctx):
     _hist.run_histories(ctx, ORACLES, nprog=ctx.scale(24, 400), nops=ctx.scale(30, 80), remount_every=False)
+    if ctx.tier == "quick":      # cluster numbers above 0xFFFF (DIR_FstClusHI): two programs on the 33 MiB volume whose low clusters are marked bad
+        _hist.run_histories(ctx, ORACLES, nprog=1, nops=8, scripted=False, high=True, vol_filter=lambda l: l == "build32-high")
 
 
 def extra_search(ctx):
